@@ -332,6 +332,20 @@ pub fn run(out: &mut Out, tier: &str, rng: &mut Rng) {
             }
         }
     }
+    // 2b. deep nesting (no bound on the depth of a type expression): 20, 33, 36 wrappers around a tuple / a named type
+    for &d in &[20usize, 33, 36] {
+        for (wi, inner) in [RTy::Tup(vec![RTy::Prim("u8".into()), RTy::Prim("String".into())]), RTy::Named("User".into())].iter().enumerate() {
+            let mut t = inner.clone();
+            for k in 0..d {
+                t = if (k + wi) % 3 == 2 { RTy::HSet(Box::new(t)) } else { RTy::Vec(Box::new(t)) };
+            }
+            for site in SITES {
+                for mode in ["ts", "zod"] {
+                    out.case("site", json!({"rty": t.to_json(), "site": site, "mode": mode, "mappings": {}}), json!({"gen": "deep", "depth": d}));
+                }
+            }
+        }
+    }
     // 3. random deeper types, with and without mappings
     let n = if tier == "thorough" { 30000 } else { 2500 };
     for i in 0..n {
@@ -385,8 +399,10 @@ pub fn run_mappings(out: &mut Out, tier: &str, rng: &mut Rng) {
         json!({"QueryResult<Row>": "number", "MyOption<Row>": "string", "SmallVec<Row>": "string", "IndexMap<Row>": "string"}),
         // generic keys with several arguments (a comma inside the mapped name)
         json!({"Versioned<DocId, u32>": "string", "Either<Left, Right>": "number"}),
+        // keys spelled with a module path, outside or inside the generic arguments
+        json!({"chrono::DateTime<Utc>": "string", "DateTime<chrono::Utc>": "string", "std::path::PathBuf": "string", "uuid::Uuid": "string"}),
     ];
-    let mapped_names = ["PathBuf", "Uuid", "Timestamp", "DateTime<Utc>", "Flag", "User", "Box<RawValue>", "Arc<Session>", "Rc<Node>", "QueryResult<Row>", "MyOption<Row>", "SmallVec<Row>", "Versioned<DocId, u32>", "Either<Left, Right>"];
+    let mapped_names = ["PathBuf", "Uuid", "Timestamp", "DateTime<Utc>", "Flag", "User", "Box<RawValue>", "Arc<Session>", "Rc<Node>", "QueryResult<Row>", "MyOption<Row>", "SmallVec<Row>", "Versioned<DocId, u32>", "Either<Left, Right>", "chrono::DateTime<Utc>", "DateTime<chrono::Utc>", "std::path::PathBuf"];
     let mut kk = 0usize;
     for name in mapped_names {
         let n = RTy::Named(name.to_string());
@@ -406,11 +422,13 @@ pub fn run_mappings(out: &mut Out, tier: &str, rng: &mut Rng) {
                 for mode in ["ts", "zod"] {
                     for t in &tables {
                         // a generic name is only a supported input when the table maps it
-                        if name.contains('<') && t.get(name).is_none() {
+                        if (name.contains('<') || name.contains("::")) && t.get(name).is_none() {
                             continue;
                         }
                         kk += 1;
-                        if tier != "thorough" && kk % 2 == 0 {
+                        // quick tier: every second combination, chosen by a hash of the counter (a fixed stride would skip
+                        // the same (mode, table) pairs for ever)
+                        if tier != "thorough" && ((kk as u64).wrapping_mul(2654435761) >> 9) & 1 == 0 {
                             continue;
                         }
                         out.case("site", json!({"rty": c.to_json(), "site": site, "mode": mode, "mappings": t}),
